@@ -35,13 +35,23 @@ def xcorrF (ny nx pad : Nat) (x y : Nat → Nat → Float) : Img Float :=
     ⟨1.0 / py.toFloat, 0.0⟩ ⟨1.0 / px.toFloat, 0.0⟩ ⟨0.0, 0.0⟩ Cx.conj absF (memo2 py px)
     (fun a b => ⟨x a b, 0.0⟩) (fun a b => ⟨y a b, 0.0⟩)
 
-def corrF (ny nx pad : Nat) (t : Float) (stack : Nat → Nat → Nat → Float) (ref : Nat → Nat → Float) (i : Nat) : Float × Float :=
+/-- the N-D entry of `correlation_centroid` on the flat `(nt, ny, nx)` buffer -/
+def corrF (ny nx pad : Nat) (t : Float) (buf : Nat → Float) (ref : Nat → Nat → Float) (i : Nat) : Float × Float :=
   let py := ny * pad
   let px := nx * pad
   let wy := twTable py; let wx := twTable px; let wiy := twiTable py; let wix := twiTable px
-  corrCentroidN ny nx pad (fun m => wy[m]!) (fun m => wx[m]!) (fun m => wiy[m]!) (fun m => wix[m]!)
+  corrFlat ny nx pad (fun m => wy[m]!) (fun m => wx[m]!) (fun m => wiy[m]!) (fun m => wix[m]!)
     ⟨1.0 / py.toFloat, 0.0⟩ ⟨1.0 / px.toFloat, 0.0⟩ ⟨0.0, 0.0⟩ Cx.conj absF (memo2 py px)
-    (fun v => (⟨v, 0.0⟩ : CF)) t stack ref i
+    (fun v => (⟨v, 0.0⟩ : CF)) t buf ref i
+
+/-- the 2-D entry of `correlation_centroid` -/
+def corr2F (ny nx pad : Nat) (t : Float) (im : Nat → Nat → Float) (ref : Nat → Nat → Float) : Float × Float :=
+  let py := ny * pad
+  let px := nx * pad
+  let wy := twTable py; let wx := twTable px; let wiy := twiTable py; let wix := twiTable px
+  corrCentroid ny nx pad (fun m => wy[m]!) (fun m => wx[m]!) (fun m => wiy[m]!) (fun m => wix[m]!)
+    ⟨1.0 / py.toFloat, 0.0⟩ ⟨1.0 / px.toFloat, 0.0⟩ ⟨0.0, 0.0⟩ Cx.conj absF (memo2 py px)
+    (fun v => (⟨v, 0.0⟩ : CF)) t im ref
 
 def handle (args : List String) : Option String :=
   match args with
@@ -54,7 +64,7 @@ def handle (args : List String) : Option String :=
       let nf ← nfs.toNat?; let ny ← nys.toNat?; let nx ← nxs.toNat?; let t ← parseFloat? ts; let mn ← parseFloat? mns
       let a ← parseFloats? rest
       if ny = 0 ∨ nx = 0 ∨ a.size ≠ nf*ny*nx then none else
-      some (outPairs nf (cogN ny nx t mn (frame a ny nx 0)))
+      some (outPairs nf (cogFlat ny nx t mn (fun e => a[e]!)))
   | "cogNpinned" :: nfs :: nys :: nxs :: ts :: mns :: rest => do
       let nf ← nfs.toNat?; let ny ← nys.toNat?; let nx ← nxs.toNat?; let t ← parseFloat? ts; let mn ← parseFloat? mns
       let a ← parseFloats? rest
@@ -69,7 +79,7 @@ def handle (args : List String) : Option String :=
       let nf ← nfs.toNat?; let ny ← nys.toNat?; let nx ← nxs.toNat?; let k ← ks.toNat?
       let a ← parseFloats? rest
       if ny = 0 ∨ nx = 0 ∨ a.size ≠ nf*ny*nx ∨ k = 0 ∨ k > ny*nx then none else
-      some (outPairs nf (bpN ny nx k (frame a ny nx 0)))
+      some (outPairs nf (bpFlat ny nx k (fun e => a[e]!)))
   | "kth" :: ks :: rest => do
       let k ← ks.toNat?
       let a ← parseFloats? rest
@@ -78,7 +88,7 @@ def handle (args : List String) : Option String :=
       let nf ← nfs.toNat?; let ny ← nys.toNat?; let nx ← nxs.toNat?
       let a ← parseFloats? rest
       if ny < 2 ∨ nx < 2 ∨ a.size ≠ nf*ny*nx then none else
-      some (outPairs nf (quadCellN ny nx (frame a ny nx 0)))
+      some (outPairs nf (quadFlat ny nx (fun e => a[e]!)))
   | "xcorr" :: nys :: nxs :: pads :: rest => do
       let ny ← nys.toNat?; let nx ← nxs.toNat?; let pad ← pads.toNat?
       let a ← parseFloats? rest
@@ -90,7 +100,12 @@ def handle (args : List String) : Option String :=
       let nf ← nfs.toNat?; let ny ← nys.toNat?; let nx ← nxs.toNat?; let pad ← pads.toNat?; let t ← parseFloat? ts
       let a ← parseFloats? rest
       if ny = 0 ∨ nx = 0 ∨ pad = 0 ∨ a.size ≠ (nf+1)*ny*nx then none else
-      some (outPairs nf (corrF ny nx pad t (frame a ny nx 0) (frame a ny nx (nf*ny*nx) 0)))
+      some (outPairs nf (corrF ny nx pad t (fun e => a[e]!) (frame a ny nx (nf*ny*nx) 0)))
+  | "corr2d" :: nys :: nxs :: pads :: ts :: rest => do
+      let ny ← nys.toNat?; let nx ← nxs.toNat?; let pad ← pads.toNat?; let t ← parseFloat? ts
+      let a ← parseFloats? rest
+      if ny = 0 ∨ nx = 0 ∨ pad = 0 ∨ a.size ≠ 2*ny*nx then none else
+      some (outPairs 1 (fun _ => corr2F ny nx pad t (frame a ny nx 0 0) (frame a ny nx (ny*nx) 0)))
   | _ => none
 
 end AoVerif.Drive.C15
